@@ -300,10 +300,6 @@ C02_IdentsKept(r) ==
         \/ r.idents[k] + 1 > Len(pa)
         \/ ta[pa[r.idents[k] + 1]] = tb[pb[r.idents[k] + 1]]
         \/ FoldSeq(ta[pa[r.idents[k] + 1]]) \in Portability
-        \* a name next to a comment or directive is exempt too (the parser decides by the neighbouring token)
-        \/ LET i == pa[r.idents[k] + 1]
-               special(j) == j >= 1 /\ j <= Len(r.tin) /\ (r.tin[j][3] \in CommentKinds \/ r.tin[j][3] \in DirectiveKinds)
-           IN special(i - 1) \/ special(i + 1)
 
 ---------------------------------------------------------------------------
 (* C07: verbatim regions (code point ranges <<from, to, open>> of the input, 0-based half-open; open = not closed by an  *)
